@@ -113,7 +113,7 @@ def gaussian_loss_w_sys(mod: jnp.array,
     """
     
     sys_scatter_base = sample(f'sys_rms_base{suffix}', dist.TruncatedNormal(low = 0, scale = 1 ) )
-    sys_scatter = deterministic(f'sys_rms{suffix}', sys_scatter_base*jnp.mean(rms))
+    sys_scatter = deterministic(f'sys_rms{suffix}', sys_scatter_base*jnp.mean(rms, where=mask))
     with handlers.mask(mask = mask):
         loss =  sample(f"Loss{suffix}", dist.Normal(mod, jnp.sqrt(rms**2 + sys_scatter**2)), obs=data)    
     return loss
@@ -175,7 +175,7 @@ def student_t_loss_free_sys(mod: jnp.array,
         Sampled loss function
     """
     sys_scatter_base = sample(f'sys_rms_base{suffix}', dist.TruncatedNormal(low = 0, scale = 1 ) )
-    sys_scatter = deterministic(f'sys_rms{suffix}', sys_scatter_base*jnp.mean(rms))
+    sys_scatter = deterministic(f'sys_rms{suffix}', sys_scatter_base*jnp.mean(rms, where=mask))
     rms_new = jnp.sqrt((nu-2.)/2.)*jnp.sqrt(rms**2 + sys_scatter**2)
 
     with handlers.mask(mask = mask):
@@ -283,7 +283,7 @@ def gaussian_mixture_w_sys(mod: jnp.array,
     contam_frac = deterministic(f'outlier_frac{suffix}', contam_frac_base*0.05 )
 
     sys_scatter_base = sample(f'sys_rms_base{suffix}', dist.TruncatedNormal(low = 0, scale = 1 ) )
-    sys_scatter = deterministic(f'sys_rms{suffix}', sys_scatter_base*jnp.mean(rms))
+    sys_scatter = deterministic(f'sys_rms{suffix}', sys_scatter_base*jnp.mean(rms, where=mask))
 
     rms_new = jnp.sqrt(rms**2 + sys_scatter**2)
     mixture_dists = dist.Categorical(probs = jnp.array([1-contam_frac, contam_frac]))
